@@ -21,6 +21,7 @@ func runC02(p *core.Prog, r *core.Result) {
 		"R2.6 the verdict 'a dependency is out of date' is produced only where a dependency has no recorded stamp, changed in this build, or has a stamp different from the recorded one - nowhere else (no comparison of counts, no extra condition merged in after the loop)",
 		"R2.11 a target's own verdict (Target.upToDate()) is taken behind the evaluation of its dependencies: a generated source file, whose dependency is its generator, is hashed only after the generator ran in this build (otherwise its record carries the sum of the previous contents and the rebuild of the unchanged tree re-executes its consumers)",
 		"R2.12 a content sum is a function of names and contents: nothing fed into the hash of a source (fileSum, dirSum and what they call) is computed from a modification time or another attribute that changes without the contents (fs.FormatFileInfo, FileInfo.ModTime / Sys, package time) - otherwise a timestamp-only touch, a same-content rewrite or a scratch file created and removed below a source directory re-executes the consumers",
+		"R2.13 distinct targets and sources have distinct records: the record path is work/<kind>s/<one URL-escaped component of package and name> (C12's R12.3) - a spelling that is not injective ('/' written as '_', which also passes unchanged) makes //tools:gen_docs and //tools/gen:docs overwrite each other's record, and one of them re-executes on every build of the unchanged tree",
 		"R2.7 the stamp a loaded target reports to its dependents (targetInfo.stamp) is a persisted field of its record, verbatim (the combined stamp, or the plain data of a record written before combined stamps existed) - never a value recomputed at load, which differs from what dependents stored whenever the formula or the record format has changed since",
 		"R2.5 the current environment of a function (functionEnv) is not computed from anything reachable from loadFunction: it is taken only after every module has finished executing, so it is complete",
 		"R2.8 what a function's stamp is computed from is fixed when loading ends: a host value whose contents are written while targets run (a cache) is neither pickled by content by the encoder nor read by the host pickler - otherwise the stamp recorded by one build differs from the one the next, unchanged, build computes before anything ran (shared with C08 R8.8)",
@@ -79,6 +80,7 @@ func runC02(p *core.Prog, r *core.Result) {
 	// ---- R2.11 the own verdict is taken behind the dependencies
 	checkVerdictAfterDependencies(p, r, "R2.11")
 	checkSumsIgnoreTimes(p, r, "R2.12")
+	r.Floor("R2.13", importObligations(p, r, runC12, "C12", map[string]bool{"R12.3": true}, "R2.13"), 1, "obligations on the shape of the record path")
 
 	// ---- R2.3
 	checkLoadRewritesRead(p, r, "R2.3")
